@@ -1942,9 +1942,8 @@ Proof.
     destruct (parse_indices (S (length (x :: ix))) (x :: ix)); discriminate.
   - destruct (ref_indexing r) as [|x ix]; [inversion H; subst; apply Hv; reflexivity|].
     destruct (parse_indices (S (length (x :: ix))) (x :: ix)) as [idx|]; [|discriminate].
-    destruct (index_tree t0 idx) as [ti|] eqn:Ei; inversion H; subst.
-    + apply (index_tree_wf idx t0 t' (Hv t0 eq_refl) Ei).
-    + apply Hv. reflexivity.
+    destruct (index_tree t0 idx) as [ti|] eqn:Ei; [|discriminate]. inversion H; subst.
+    apply (index_tree_wf idx t0 t' (Hv t0 eq_refl) Ei).
 Qed.
 
 Lemma resolve_ref_wf : forall vars, Forall wfv vars -> forall fuel seen r t,
